@@ -157,6 +157,11 @@ BREAKING = [
                           (Q, "        cls._reg_id = QuantityMeta._registry.register_item(cls)", "        try:\n            cls._reg_id = QuantityMeta._registry.register_item(cls)\n        except ValueError:\n            cls._reg_id = -1")], props=["C02"]),
     dict(id="b231", file=R, old="            elif self._unique_items:\n", new="            elif self._unique_items and idx < 0:\n", props=["C02"]),
     dict(id="b240", file="src/quantity/exceptions.py", old="class IncompatibleUnitsError(QuantityError):", new="class IncompatibleUnitsError(TypeError):", props=["C18"]),
+    dict(id="b250", file=M, old="        \"\"\"The money's currency, i.e. its unit.\"\"\"\n        return self._unit\n",
+         new="        \"\"\"The money's currency, i.e. its unit.\"\"\"\n        return self._unit\n\n    def __eq__(self, other):\n        return isinstance(other, Money) and self.amount == other.amount\n\n    __hash__ = Quantity.__hash__\n", props=["C08"]),
+    dict(id="b251", file=M, old="        \"\"\"The money's currency, i.e. its unit.\"\"\"\n        return self._unit\n",
+         new="        \"\"\"The money's currency, i.e. its unit.\"\"\"\n        return self._unit\n\n    def __add__(self, other):\n        if isinstance(other, Money):\n            return self.__class__(self.amount + other.amount, self.unit)\n        return NotImplemented\n", props=["C08"]),
+    dict(id="b252", file=P, old="class Temperature(Quantity):\n    \"\"\"Temperature: measure of thermal energy\"\"\"\n", new="class Temperature(Quantity):\n    \"\"\"Temperature: measure of thermal energy\"\"\"\n\n    def __lt__(self, other):\n        return self.amount < other.amount\n", props=["C04"]),
     dict(id="b212", file=M, old="        if cls._converters[-1] is conv:\n            cls._converters.pop()", new="        if cls._converters[-1] is conv:\n            del cls._converters[0]", props=["C12"]),
 ]
 BREAKING = [b for b in BREAKING if b["props"]]
